@@ -667,3 +667,63 @@ Proof.
   intros HL HR F Ha. cbv zeta. destruct (sessions_converge os L F (join_Rel L HL HR) Ha) as [_ _ Hu Hr _ _].
   split; assumption.
 Qed.
+
+(* ------------------------------------------------------------------ C12: what a promoted follower buries and publishes *)
+
+Lemma In_all_grave_goods s g :
+  Inv s -> (In g (all_grave_goods s) <->
+            exists x e l, abs s [s_SYS; s_clients; x; s_graveGoods] = Some e /\ dec_grave_goods (entry_val e) = Some l /\ In g l).
+Proof.
+  intros (Hw & _). unfold all_grave_goods. rewrite in_flat_map. split.
+  - intros ([q e] & Hin & Hg). cbn [snd] in Hg. apply (collect_spec _ _ _ _ _ Hw) in Hin as (k & -> & Hl & Hm).
+    cbn [app] in *. apply match_sys_clients in Hm as (x & ->). destruct (dec_grave_goods (entry_val e)) as [l|] eqn:Ed; [|destruct Hg].
+    now exists x, e, l.
+  - intros (x & e & l & Hl & Hd & Hg). exists ([s_SYS; s_clients; x; s_graveGoods], e). split.
+    + apply (collect_spec _ _ _ _ _ Hw). exists [s_SYS; s_clients; x; s_graveGoods]. split; [reflexivity|]. split; [exact Hl|].
+      apply match_sys_clients. now exists x.
+    + cbn [snd]. now rewrite Hd.
+Qed.
+
+Lemma In_all_last_wills s kv :
+  Inv s -> (In kv (all_last_wills s) <->
+            exists x e l, abs s [s_SYS; s_clients; x; s_lastWill] = Some e /\ dec_last_will (entry_val e) = Some l /\ In kv l).
+Proof.
+  intros (Hw & _). unfold all_last_wills. rewrite in_flat_map. split.
+  - intros ([q e] & Hin & Hg). cbn [snd] in Hg. apply (collect_spec _ _ _ _ _ Hw) in Hin as (k & -> & Hl & Hm).
+    cbn [app] in *. apply match_sys_clients in Hm as (x & ->). destruct (dec_last_will (entry_val e)) as [l|] eqn:Ed; [|destruct Hg].
+    now exists x, e, l.
+  - intros (x & e & l & Hl & Hd & Hg). exists ([s_SYS; s_clients; x; s_lastWill], e). split.
+    + apply (collect_spec _ _ _ _ _ Hw). exists [s_SYS; s_clients; x; s_lastWill]. split; [reflexivity|]. split; [exact Hl|].
+      apply match_sys_clients. now exists x.
+    + cbn [snd]. now rewrite Hd.
+Qed.
+
+(* a follower in the relation knows exactly the grave goods and last wills registered on the leader -- those made
+   before it joined included (join_Rel) -- so these are what its shutdown and its restart as leader apply (C12_promote) *)
+Theorem follower_knows_registrations L F :
+  Rel L F ->
+  (forall g, In g (all_grave_goods F) <-> In g (all_grave_goods L)) /\
+  (forall kv, In kv (all_last_wills F) <-> In kv (all_last_wills L)).
+Proof.
+  intros [HL HF _ Hregs _ _].
+  assert (Hv : forall x leaf, (leaf = s_graveGoods \/ leaf = s_lastWill) ->
+               forall (P : json -> Prop),
+               (exists e, abs F [s_SYS; s_clients; x; leaf] = Some e /\ P (entry_val e)) <->
+               (exists e, abs L [s_SYS; s_clients; x; leaf] = Some e /\ P (entry_val e))).
+  { intros x leaf Hleaf P. assert (Hr : reg_path [s_SYS; s_clients; x; leaf]) by (exists x, leaf; auto).
+    specialize (Hregs _ Hr). unfold val_at in Hregs.
+    destruct (abs F [s_SYS; s_clients; x; leaf]) as [eF|], (abs L [s_SYS; s_clients; x; leaf]) as [eL|]; cbn [option_map] in Hregs; try discriminate.
+    - injection Hregs as E. split; intros (e & [= <-] & H); eexists; (split; [reflexivity|]); congruence.
+    - split; intros (e & [=] & _). }
+  split.
+  - intros g. rewrite (In_all_grave_goods F g HF), (In_all_grave_goods L g HL). split.
+    + intros (x & e & l & Hl & Hd & Hg).
+      destruct (proj1 (Hv x s_graveGoods (or_introl eq_refl) (fun v => dec_grave_goods v = Some l))) as (e' & H1 & H2); [eauto|]. now exists x, e', l.
+    + intros (x & e & l & Hl & Hd & Hg).
+      destruct (proj2 (Hv x s_graveGoods (or_introl eq_refl) (fun v => dec_grave_goods v = Some l))) as (e' & H1 & H2); [eauto|]. now exists x, e', l.
+  - intros kv. rewrite (In_all_last_wills F kv HF), (In_all_last_wills L kv HL). split.
+    + intros (x & e & l & Hl & Hd & Hg).
+      destruct (proj1 (Hv x s_lastWill (or_intror eq_refl) (fun v => dec_last_will v = Some l))) as (e' & H1 & H2); [eauto|]. now exists x, e', l.
+    + intros (x & e & l & Hl & Hd & Hg).
+      destruct (proj2 (Hv x s_lastWill (or_intror eq_refl) (fun v => dec_last_will v = Some l))) as (e' & H1 & H2); [eauto|]. now exists x, e', l.
+Qed.
